@@ -71,6 +71,18 @@ def _stratum(ctx):
                                     trees.append(["and", ["leaf", f"{lop}{lo}"], ["leaf", f"{hop}{hi}"]])
                                 trees.append(["or", ["leaf", f"<{lo}"], ["leaf", f">={hi}"]])
                                 trees.append(["or", ["leaf", f"<{lo}"], ["leaf", f">{hi}"]])
+        # upper bound differing from lo only *beyond* lo's own length:  <X || >=X.1,  >=X,<X.0.1 ...
+        for extra_len in (1, 2):
+            for k in range(extra_len):
+                tail = [0] * extra_len
+                tail[k] = 1
+                for pad in (0, 1):
+                    hi_rel = ".".join(map(str, list(rel) + tail + [0] * pad))
+                    for ep in ("", "1!"):
+                        lo, hi = ep + lo_rel, ep + hi_rel
+                        trees.append(["or", ["leaf", f"<{lo}"], ["leaf", f">={hi}"]])
+                        trees.append(["and", ["leaf", f">={lo}"], ["leaf", f"<{hi}"]])
+                        trees.append(["or", ["leaf", f"<{lo}.0"], ["leaf", f">={hi}"]])
         for s in _suffixes():
             v = lo_rel + s
             trees.append(["or", ["leaf", f"<{v}"], ["leaf", f">{v}"]])
